@@ -216,6 +216,8 @@ def scenic_lines(c):
         return L, "obj"
     if k == "on":
         new = f"{dims_txt(c['ndim'])}, with contactTolerance {c['ct'] / lat3.SCALE}{own_txt(c['own'])}, {COMMON}{tag(i)}"
+        if c["bo"] != [0, 0, -(c["ndim"][2] // 2)]:
+            new += f", with baseOffset {fv(c['bo'])}"
         od = f", with onDirection {tuple(c['dir'])}" if c["dirk"] == "given" else ""
         if c["rk"] == "vec":
             L.append(f"c{i} = new Object on {fv(c['P'])}, {new}")
@@ -255,6 +257,8 @@ def _generate_pass(tier, rng, cases):
 
     def add(**kw):
         kw["id"] = len(cases) + 1
+        if kw.get("kind") == "on":
+            kw.setdefault("bo", [0, 0, -(kw["ndim"][2] // 2)])   # default baseOffset: the bottom centre
         cases.append(kw)
 
     cube = [list(e) for e in lat3.EULER_CANON]
@@ -419,6 +423,12 @@ def _generate_pass(tier, rng, cases):
                 own=[0, 0, 0], ref=dict(ore, p=ctr), rdim=rdim)
         add(kind="on", rk="vec", boxes=[], P=qv(P()), dirk="default", dir=[0, 0, 1], ndim=rng.choice([[4, 8, 8], [8, 4, 12]]), ct=2, own=list(rng.choice(owns)),
             ref=pose((0, 0, 0)), rdim=[4, 4, 4])
+        # an explicit baseOffset that is not vertical: the BASE (position + baseOffset) is what lands on the target
+        for bo in ([2, -1, -4], [-3, 2, 1], [0, 4, -6]):
+            add(kind="on", rk="vec", boxes=[], P=qv(P()), dirk="default", dir=[0, 0, 1], ndim=[4, 8, 8], ct=2, own=list(rng.choice(owns)),
+                ref=pose((0, 0, 0)), rdim=[4, 4, 4], bo=bo)
+            add(kind="on", rk="stack", boxes=[b1, b2], P=[lo[0] + 10, lo[1] + 14, lo[2] + rng.choice([14, 50])], dirk="default", dir=[0, 0, 1],
+                ndim=[4, 8, 8], ct=2, own=list(rng.choice(owns)), ref=pose((0, 0, 0)), rdim=[4, 4, 4], bo=bo)
     # ---- Orientation / Vector algebra through the Python API
     for o1 in some_orients(nq, pyth=2):
         add(kind="ori", sub="euler", o1=o1, o2=orient(), V=[0, 0, 0])
